@@ -104,7 +104,7 @@ fn plan(ctx: &mut CheckCtx, k: f64) {
         }
         "C05" => {
             // one evaluation = one (k, n) cell = a batch of sampler runs; the grid is fixed per tier
-            let cells = s3_reservoir::small_grid().len() + if ctx.tier == Tier::Thorough { s3_reservoir::large_grid().len() } else { 0 };
+            let cells = s3_reservoir::small_grid().len() + s3_reservoir::restart_grid().len() + if ctx.tier == Tier::Thorough { s3_reservoir::large_grid().len() } else { 0 };
             ctx.required_probes = vec!["cell_ends_in_reservoir_phase", "cell_ends_at_switch", "cell_ends_in_gap_phase"];
             ctx.assumptions.push("statistical acceptance at z = 6 (regions) / 6.5 (single positions) against the binomial standard error, plus the allowance (1+ln(n/4k))/k for n > 4k+1; the default VERIF_SEED fixes the batch, other seeds have a false-alarm probability below 1e-5 per batch".into());
             ctx.run::<s3_reservoir::S3b>(cells as u64);
@@ -254,9 +254,20 @@ fn main() {
             let seed: u64 = std::env::var("VERIF_SEED").ok().and_then(|s| s.parse().ok()).unwrap_or(1);
             let k = scale.unwrap_or(if tier == Tier::Thorough { 20.0 } else { 1.0 });
             println!("pdsim {} tier={} VERIF_SEED={} workers={} scale={}", prop, tier.name(), seed, workers, k);
-            let mut ctx = CheckCtx::new(prop, tier, seed, workers, verif_dir(), level_of(prop));
-            plan(&mut ctx, k);
-            ctx.finish()
+            // a panic that escapes here is a bug of the simulator itself: harness error, never a verdict
+            let r = std::panic::catch_unwind(std::panic::AssertUnwindSafe(|| {
+                let mut ctx = CheckCtx::new(prop, tier, seed, workers, verif_dir(), level_of(prop));
+                plan(&mut ctx, k);
+                ctx.finish()
+            }));
+            match r {
+                Ok(code) => code,
+                Err(_) => {
+                    eprintln!("HARNESS ERROR: the simulator panicked (see HARNESS PANIC lines above); no verdict");
+                    println!("HARNESS ERROR: the simulator panicked; no verdict for {}", prop);
+                    2
+                }
+            }
         }
     };
     std::process::exit(code);
